@@ -107,7 +107,15 @@ func (g *GatedDB) gate(op string, key []byte) {
 func (g *GatedDB) Put(key, val []byte) error { g.gate("put", key); return g.Inner.Put(key, val) }
 
 // Get implements data.DBWriteCacher.
-func (g *GatedDB) Get(key []byte) ([]byte, error) { g.gate("get", key); return g.Inner.Get(key) }
+func (g *GatedDB) Get(key []byte) ([]byte, error) {
+	g.gate("get", key)
+	if FailGet != nil {
+		if err := FailGet(key); err != nil {
+			return nil, err
+		}
+	}
+	return g.Inner.Get(key)
+}
 
 // Remove implements data.DBWriteCacher.
 func (g *GatedDB) Remove(key []byte) error { g.gate("remove", key); return g.Inner.Remove(key) }
